@@ -411,6 +411,14 @@ Theorem C10_api_hint_bounds : forall (CS : Type) (cs_begin : CS -> fconf -> N ->
 Proof. exact api_hint_bounds. Qed.
 Print Assumptions C10_api_hint_bounds.
 
+(* the hypothesis "frame in progress" of C10_api_hint_bounds cannot be dropped (observation O1 of docs/C10.md): on a context
+   that never initialised a frame, stable input, ZSTD_compressStream of 3 bytes defers the frame start, reports the 3 bytes
+   consumed and returns 0 as the preferred size of the next input (ZSTD_nextInputSizeHint reads the zeroed blockSize) *)
+Example ex_hint_zero_while_deferred :
+  (let o := a_stream unit ex_begin ex_chunk exP exfc exX (a_new tt) 3 100 in (ao_ret o, ao_consumed o, k_stage (a_k (ao_a o))))
+    = (Some 0, 3%Z, KInit).
+Proof. vm_compute. reflexivity. Qed.
+
 (* ---------------- round 3: ZSTD_checkBufferStability never refuses a caller that keeps its buffer (coq/Stream/C10Stab.v) ---------------- *)
 From ZV.Stream Require Import C10Stab C10StabProofs.
 
